@@ -89,6 +89,9 @@ type Plan struct {
 	CloseAfterHandoff [][2]int `json:"closeAfterHandoff,omitempty"` // (k, d): a graceful shutdown d steps after the k-th log was handed to the batcher
 	SlowStore         bool     `json:"slowStore,omitempty"`         // batch inserts complete late (see the scheduler)
 	CancelAfter       [][2]int `json:"cancelAfter,omitempty"`       // (op index, k): the caller of that request goes away when the request passes its k-th scheduling point
+	CancelAtHandoff   []int    `json:"cancelAtHandoff,omitempty"`   // k: the caller of the request whose log is the k-th handed to the batcher goes away right then (entry in flight, nobody waiting for it)
+	ReadFaultOf       [][2]int `json:"readFaultOf,omitempty"`       // (op index, k): the k-th store read issued by that request fails
+	Hold              [][3]int `json:"hold,omitempty"`              // (op index, k, d): once that request has passed k of its scheduling points it is slow: it is not scheduled for the next d steps in which anything else can move
 	BatchSize         int      `json:"batchSize,omitempty"`         // 0 = production value
 	CacheSize         int      `json:"cacheSize,omitempty"`         // 0 = 1024
 	MaxSteps          int      `json:"maxSteps,omitempty"`
@@ -166,6 +169,7 @@ type Result struct {
 	ReadFaults     int
 	Closes         int
 	Cancels        int
+	Holds          int // scheduler steps at which a held (slow) request was passed over
 	// LeakedWorkers counts generations whose batch worker could not be stopped because the
 	// runner loop had died by a panic that was not a store failure.
 	LeakedWorkers int
@@ -194,6 +198,7 @@ type clientInfo struct {
 	cancel context.CancelFunc
 	done   bool
 	passed int // scheduling points of this request released so far
+	reads  int // store reads issued by this request so far
 }
 
 type gateResult struct {
@@ -766,6 +771,10 @@ func runInBubble(plan *Plan, res *Result) {
 	closeDyn := map[int]bool{}
 	handoffs := 0
 	grace := map[int]int{}
+	holdLeft := make([]int, len(plan.Hold))
+	for i, h := range plan.Hold {
+		holdLeft[i] = h[2]
+	}
 	answered := func(i int) bool {
 		r := res.Responses[i]
 		if r == nil {
@@ -941,6 +950,30 @@ func runInBubble(plan *Plan, res *Result) {
 				}
 			}
 		}
+		if len(plan.Hold) > 0 && len(enabled) > 0 {
+			// a slow request: while it is held, everything else moves first
+			var others []*gate
+			var heldNow []int
+			for _, g := range enabled {
+				held := false
+				for hi, h := range plan.Hold {
+					if g.ci.id == h[0] && g.ci.id >= 0 && g.ci.passed >= h[1] && holdLeft[hi] > 0 {
+						held = true
+						heldNow = append(heldNow, hi)
+					}
+				}
+				if !held {
+					others = append(others, g)
+				}
+			}
+			if len(heldNow) > 0 && (len(others) > 0 || canSpawn) {
+				enabled = others
+				for _, hi := range heldNow {
+					holdLeft[hi]--
+				}
+				res.Holds++
+			}
+		}
 		if s.cur.closing && len(enabled) == 0 {
 			// everything that could finish has finished: the process exits; what is left blocked is lost
 			g := s.cur
@@ -1034,10 +1067,18 @@ func runInBubble(plan *Plan, res *Result) {
 			} else if strings.HasPrefix(g.point, "store.") && !strings.HasSuffix(g.point, ".answer") {
 				if contains(plan.ReadFaultAt, s.reads) {
 					r.fault = true
+				}
+				for _, rf := range plan.ReadFaultOf {
+					if g.ci.id >= 0 && rf[0] == g.ci.id && rf[1] == g.ci.reads {
+						r.fault = true
+					}
+				}
+				if r.fault {
 					res.ReadFaults++
 					s.event(g.ci.gen.id, g.ci.id, "read-fault", g.point)
 				}
 				s.reads++
+				g.ci.reads++
 			}
 			if g.point == "append.handedoff" {
 				handoffs++
@@ -1045,6 +1086,11 @@ func runInBubble(plan *Plan, res *Result) {
 					if ch[0] == handoffs {
 						closeDyn[s.step+1+ch[1]] = true
 					}
+				}
+				if contains(plan.CancelAtHandoff, handoffs) && g.ci.id >= 0 && g.ci.cancel != nil {
+					s.event(g.ci.gen.id, g.ci.id, "cancel", g.point)
+					res.Cancels++
+					g.ci.cancel()
 				}
 			}
 			if g.ci.id >= 0 {
